@@ -229,11 +229,20 @@ def add_noise_tags(rng, h, p=0.35, traps=True):
     return h
 
 
-def enc_commit(c, i=None):
+def commit_message(c, i, text):
+    """the commit message: "msg" when the history carries messages, else one made from the match flag"""
+    if c.get("msg") is not None:
+        return c["msg"]
+    return ("fix %s in c%d" % (text, i)) if c["m"] else ("other c%d" % i)
+
+
+def enc_commit(c, i=None, text=None):
+    """`text` given: the protocol carries the commit message (C06: the model decides what matches); else the flag"""
     p = ",".join(str(x) for x in c["p"]) if c["p"] else "-"
     t = "+".join(enc_str(n) for n in commit_tag_names(c)) or "-"
     sv = saved_version(c)
-    return "%s:%s:%d:%d:%s" % (p, t, 1 if c["m"] else 0, commit_ts(c, i), "%d.%d" % sv if sv else "-")
+    m = enc_str(commit_message(c, i, text)) if text is not None else "%d" % (1 if c["m"] else 0)
+    return "%s:%s:%s:%d:%s" % (p, t, m, commit_ts(c, i), "%d.%d" % sv if sv else "-")
 
 
 _TAG_BUILD = re.compile(r"build_(\d+)_(.*)_success$")
@@ -281,10 +290,12 @@ def with_times(h):
     return h
 
 
-def enc_hist(h):
-    commits = ";".join(enc_commit(c, i) for i, c in enumerate(h["commits"])) or "-"
+def enc_hist(h, default_text="BUG-7"):
+    """remote, search text, commits (with their messages), refs"""
+    text = h.get("text", default_text)
+    commits = ";".join(enc_commit(c, i, text) for i, c in enumerate(h["commits"])) or "-"
     refs = ";".join("%s:%d" % (enc_str(REMOTE + "/" + n), hd) for n, hd in ref_order(h["refs"])) or "-"
-    return "%s %s %s" % (enc_str(REMOTE), commits, refs)
+    return "%s %s %s %s" % (enc_str(REMOTE), enc_str(text), commits, refs)
 
 
 def ref_order(refs):
@@ -292,14 +303,19 @@ def ref_order(refs):
     return sorted(refs, key=lambda r: REMOTE + "/" + r[0])
 
 
-def dec_hist(remote, commits, refs):
+def dec_hist(remote, text, commits, refs):
+    """the history of a `rep` line; the match flags "m" are the harness' own reading of the documented predicate
+    ("string to find in commit messages": the text occurs in the message, as it is)"""
     assert dec_str(remote) == REMOTE
+    text = dec_str(text)
     cs = []
     if commits != "-":
         for tok in commits.split(";"):
             p, t, m, ts, sv = tok.split(":")[:5]
             bns, other = dec_tags(t, sv)
-            c = {"p": [] if p == "-" else [int(x) for x in p.split(",")], "t": bns, "m": int(m), "ts": int(ts)}
+            msg = dec_str(m)
+            c = {"p": [] if p == "-" else [int(x) for x in p.split(",")], "t": bns, "msg": msg,
+                 "m": 1 if msg.find(text) >= 0 else 0, "ts": int(ts)}
             if other:
                 c["xt"] = other
             c["names"] = [] if t == "-" else [dec_str(tok2) for tok2 in t.split("+")]
@@ -313,7 +329,7 @@ def dec_hist(remote, commits, refs):
             name = dec_str(n)
             assert name.startswith(REMOTE + "/")
             rs.append([name[len(REMOTE) + 1:], int(hd)])
-    return {"commits": cs, "refs": rs}
+    return {"commits": cs, "refs": rs, "text": text}
 
 
 # ------------------------------------------------------------------ the real code on a synthetic history
@@ -341,8 +357,7 @@ def mock_lines(h, text, pins_file=None):
         for n in byhead.get(i, []):
             lines.append("branch: %s/%s" % (REMOTE, n))
         ps = ",".join(str(p + 1) for p in c["p"]) if c["p"] else "0"
-        msg = ("fix %s in c%d" % (text, i)) if c["m"] else ("other c%d" % i)
-        l = "%d<-%s|%s" % (i + 1, ps, msg)
+        l = "%d<-%s|c%d" % (i + 1, ps, i)         # the real message is set by mock_repo (mock_git strips the field)
         tags = commit_tag_names(c)
         if tags:
             l += "|tags: " + ", ".join(tags)
@@ -393,8 +408,9 @@ def repo_classes():
 def mock_repo(h, name, text, pins_file=None):
     k = repo_classes()
     repo = k["Mock"](*mock_lines(h, text, pins_file), name=name)
-    for c in repo.all_commits.values():          # the times of the history, deterministic
+    for c in repo.all_commits.values():          # the times and messages of the history
         c.committed_date = BASE_TS + commit_ts(h["commits"][c.intid - 1], c.intid - 1)
+        c.message = commit_message(h["commits"][c.intid - 1], c.intid - 1, text)
     return repo
 
 
